@@ -504,8 +504,8 @@ class Markers:
       elif isinstance(lp.iter, ast.Name) and lp.iter.id == f.params[-1] and "_process_element" in body_txt:
         self.m["children"] = lp
     for n in own_nodes(f.node):
-      if isinstance(n, ast.If) and "WritingMode" in unparse(n.test) and "Direction" in unparse(n):
-        self.m["direction"] = n
+      if isinstance(n, ast.If) and "WritingMode" in unparse(n.test) and "Direction" in unparse(n) and "direction" not in self.m:
+        self.m["direction"] = n          # the outermost one (own_nodes yields parents first)
       if isinstance(n, ast.Expr) and isinstance(n.value, ast.Call) and unparse(n.value.func).endswith("_compute_styles"):
         self.m["compute"] = n
       if isinstance(n, ast.If) and "StyleProperties.Display" in unparse(n.test) and "DisplayType.none" in unparse(n.test) and isinstance(n.body[-1], ast.Return):
@@ -551,7 +551,10 @@ def check_style_order(ctx, rule="ORD-style"):
             "the writing-mode-implies-direction rule must apply only to regions that do not specify tts:direction")
   # the implied direction: lrtb -> ltr, rltb -> rtl
   ce = ConstEval(ix)
-  ifexp = [n for n in ast.walk(d) if isinstance(n, ast.IfExp)]
+  from . import match as _m2
+  setd = [c for c in ast.walk(d) if isinstance(c, ast.Call) and isinstance(c.func, ast.Attribute) and c.func.attr == "set_style" and len(c.args) == 2 and unparse(c.args[0]).endswith("Direction")]
+  ifexp = [_m2.inline_locals_deep(f.node, setd[0].args[1])] if setd else []
+  ifexp = [n for n in ifexp if isinstance(n, ast.IfExp)] or [n for n in ast.walk(d) if isinstance(n, ast.IfExp)]
   okmap = False
   if ifexp:
     e = ifexp[0]
